@@ -35,6 +35,14 @@ EXTRA = {
             ("SafeC.Alloc.keeps_reorderLoop", "SafeC.Proofs.AllocTight", "lemma", "unrepaired reorder loop, any mark pattern, any oracle: no surviving run contains a failed request"),
             ("SafeC.Alloc.keeps_composeLoop", "SafeC.Proofs.AllocTight", "lemma", "the same for the compose loop"),
             ("SafeC.Alloc.normProg_wp", "SafeC.Proofs.AllocNorm", "lemma", "wcsnorm_s: scratch buffer + reorder + compose composed")],
+    "C15": [("SafeC.Conv.Libc.utf8Body_enc", "SafeC.Proofs.ConvCodec", "lemma", "glibc's UTF-8 decoder applied to the 1..6-byte encoding of ANY 31-bit non-surrogate value (followed by anything) returns that value and its length"),
+            ("SafeC.Conv.Libc.decodeAll_encodeAll", "SafeC.Proofs.ConvCodec", "lemma", "string-level codec round trip by induction over the list of wide characters, both locales"),
+            ("SafeC.Conv.Libc.mbsrtowcs_out_le", "SafeC.Proofs.ConvLibc", "lemma", "the model of glibc's mbsrtowcs (window loop, pending state) never stores more than len cells: induction over the loop and the gconv step"),
+            ("SafeC.Conv.Libc.wcsrtombs_out_le", "SafeC.Proofs.ConvLibc", "lemma", "the model of glibc's wcsrtombs never stores more than len bytes"),
+            ("SafeC.Conv.Libc.mbsrtowcs_shape", "SafeC.Proofs.ConvLibc", "lemma", "count returned vs cells stored: (size_t)-1, or count <= cells <= count + 1"),
+            ("SafeC.Conv.stored_then_zeroed", "SafeC.Proofs.ConvWrap", "lemma", "dest after 'libc stored out, wrapper zeroed n cells from index k': no fault, extent, prefix = out, zeros"),
+            ("SafeC.Conv.tailW_ok", "SafeC.Proofs.ConvWrap", "lemma", "success tail of mbstowcs_s/mbsrtowcs_s for an arbitrary libc result"),
+            ("SafeC.Conv.tailB_ok", "SafeC.Proofs.ConvWrap", "lemma", "success tail of wcstombs_s/wcsrtombs_s for an arbitrary libc result")],
     "C08": [("SafeC.nullSlack_ok", "SafeC.Lemmas", "lemma", "both slack strategies (memset > 0x20, byte loop) zero the whole tail")],
     "C18": [("SafeC.setPrologue_ok", "SafeC.Proofs.MemSet", "lemma", "mem_prim_set alignment prologue: k <= count bytes stored, stops aligned or exhausted"),
             ("SafeC.setBlocks_ok", "SafeC.Proofs.MemSet", "lemma", "mem_prim_set 16-way unrolled body, induction on the block count: q*128 bytes"),
